@@ -186,6 +186,9 @@ class C08(Prop):
             c.errors.append("model evaluation failed: " + err[-800:])
             return c
         for (case, o, impl, ms), b in zip(res, bres):
+            if ms is None or b == MODEL_TIMEOUT:
+                c.count("A:model-exploration-too-expensive(skipped)")
+                continue
             c.evaluations += 1
             c.count("A:histories")
             bound, ok = b.split(";")
